@@ -18,6 +18,7 @@ import (
 	"errors"
 	"fmt"
 	"math"
+	"time"
 
 	"github.com/openGemini/openGemini/engine/executor"
 	"github.com/openGemini/openGemini/engine/hybridqp"
@@ -153,11 +154,11 @@ func floatPromRateMerge(isRate, isCounter bool) FloatSliceMergeFunc {
 		}
 		extrapolateToInterval += durationToEnd
 
-		resultValue := reduceResult * (extrapolateToInterval / sampledInterval)
+		factor := extrapolateToInterval / sampledInterval
 		if isRate {
-			resultValue = resultValue / float64(param.rangeDuration/1e9)
+			factor /= time.Duration(param.rangeDuration).Seconds()
 		}
-		return resultValue, false
+		return reduceResult * factor, false
 	}
 }
 
